@@ -370,14 +370,65 @@ def run(ctx):
     ok = ok and bool(gcall) and gcall[0].args[0].path() == 'G:messline.s' and gcall[0].args[1].path() == 'G:messline.len'
     r4.check(ok, 'quote-iff-gfrom(line)', mb.unit + ':mailfile', '">" must be written under gfrom(messline.s, messline.len) only')
     gf = db.fn('gfrom.c', 'gfrom')
-    cmp = [c for c in gf.calls(('memcmp', 'strncmp', 'byte_diff', 'case_startb')) if (c.args[1].string or c.args[0].string or c.args[2].string if len(c.args) > 2 else None)]
-    okg = False
-    for c in gf.calls(('memcmp', 'strncmp')):
-        lit = c.args[1].string or c.args[0].string
-        if lit == 'From ' and c.args[2].const == 5:
-            okg = True
-    skip = any(x.k == 'bin' and x.op in ('==', '!=') and x.args[1].const == ord('>') for x in gf.all_x())
-    r4.check(okg and skip, 'gfrom-skips->-and-compares-"From "', 'gfrom.c', 'gfrom must skip leading ">" and compare 5 bytes with "From "')
+
+    class GF(QHooks):
+        def __init__(self):
+            self.rets = []
+
+        def tracked_global(self, path):
+            return True
+
+        def precise_arith(self, path):
+            return True
+
+        def _cmp(self, E, x, args):
+            from qv.esp import ptr_add
+            def rd(v, n):
+                v = next(iter(v)) if v is not TOP and len(v) == 1 else None
+                if isinstance(v, tuple) and v[0] == 'str':
+                    return [ord(c) for c in v[1][:n]] + [0] * max(0, min(n, len(v[1]) + 1) - len(v[1][:n]))
+                out = []
+                for i in range(n):
+                    q = ptr_add(v, i) if isinstance(v, tuple) else None
+                    b = E.get(q[1]) if q else TOP
+                    out.append(next(iter(b)) if b is not TOP and len(b) == 1 else None)
+                return out
+            n = next(iter(args[2])) if args[2] is not TOP and len(args[2]) == 1 else None
+            if not isinstance(n, int):
+                return [Outcome(ret=fs(0)), Outcome(ret=fs(1))]
+            a_, b_ = rd(args[0], n), rd(args[1], n)
+            for i in range(n):
+                ca = a_[i] if i < len(a_) else None
+                cb = b_[i] if i < len(b_) else None
+                if ca is None or cb is None:
+                    return [Outcome(ret=fs(0)), Outcome(ret=fs(1))]     # reads beyond the line: unknown
+                if ca != cb:
+                    return [Outcome(ret=fs(1))]
+                if ca == 0:
+                    break
+            return [Outcome(ret=fs(0))]
+
+        prim_strncmp = prim_memcmp = prim_byte_diff = _cmp
+
+        def on_return(self, E, fn, val):
+            if fn.name == 'gfrom':
+                self.rets.append(val)
+    badg = []
+    lines = ['From ', '>From ', '>>From x', 'From', 'Fro', 'from ', 'From_x', '>', '', 'xFrom ', 'From \n', '>>>>From ', '>From', 'From me\n', ' From ']
+    for ln in lines:
+        H_ = GF()
+        e_ = Engine(db, prog, H_)
+        fid = e_.frame_id(gf)
+        st = {'%s::%s' % (fid, gf.params[0]): fs(('&', 'L[0]')), '%s::%s' % (fid, gf.params[1]): fs(len(ln))}
+        for i_, ch in enumerate(ln):
+            st['L[%d]' % i_] = fs(ord(ch))
+        e_.run(gf, st)
+        rep.count_states(e_.states, e_.transitions)
+        want = 1 if ln.lstrip('>').startswith('From ') else 0
+        got = sorted({(1 if next(iter(v)) else 0) if v is not TOP and len(v) == 1 else '?' for v in H_.rets})
+        if got != [want]:
+            badg.append((ln, got, want))
+    r4.check(not badg, 'gfrom-skips->-and-compares-"From "', 'gfrom.c', 'gfrom(line) deviates (line, result, documented): %s; an unquoted "From " line splits the message for the mbox reader' % badg[:4])
     mainf = prog.fn('main', 'qmail-local.c')
     # the From_ line: which bytes of the sender are replaced by '-'
     from qv.lib import values_reaching
